@@ -56,9 +56,18 @@ type SyncCommitteePool struct {
 }
 
 func NewSyncCommitteePool(spec *common.Spec) *SyncCommitteePool {
+	// currentSlot starts one before slot 0, so that slot 0 is the "next" slot: the buffers must exist already.
 	return &SyncCommitteePool{
 		spec:        spec,
 		currentSlot: ^common.Slot(0),
+
+		prevContribs:    make(SyncCommitteeContributions),
+		currentContribs: make(SyncCommitteeContributions),
+		nextContribs:    make(SyncCommitteeContributions),
+
+		prevMsgs:    make(SyncCommitteeMessages, spec.SYNC_COMMITTEE_SIZE),
+		currentMsgs: make(SyncCommitteeMessages, spec.SYNC_COMMITTEE_SIZE),
+		nextMsgs:    make(SyncCommitteeMessages, spec.SYNC_COMMITTEE_SIZE),
 	}
 }
 
